@@ -115,7 +115,7 @@ Fixpoint skipk (h : list item) : list item :=
   match h with ItCfg _ _ :: t => skipk t | _ => h end.
 
 Definition tail_ok (r : recipe) (h : list item) : Prop :=
-  if r_rf r =? 2 then exists l, skipk (skipf h) = [ItReq l]
+  if rf_hashed r then exists l, skipk (skipf h) = [ItReq l]
   else skipk (skipf h) = [].
 
 Definition shape (r : recipe) (h : list item) : Prop :=
@@ -166,12 +166,12 @@ Proof. intros g [|k ks] t Ht; simpl; auto. Qed.
 
 Lemma shape_built : forall r vs (g : Z -> Z) rit,
   length vs = length (r_feats r) ->
-  (if r_rf r =? 2 then exists l, rit = [ItReq l] else rit = []) ->
+  (if rf_hashed r then exists l, rit = [ItReq l] else rit = []) ->
   shape r (map ItFeat vs ++ map (fun k => ItCfg k (g k)) (r_keys r) ++ rit).
 Proof.
   intros r vs g rit Hl Hr.
   assert (Hrit : no_feat_head rit /\ no_cfg_head rit).
-  { destruct (r_rf r =? 2); [destruct Hr as [l ->]|subst]; simpl; auto. }
+  { destruct (rf_hashed r); [destruct Hr as [l ->]|subst]; simpl; auto. }
   destruct Hrit as [Hnf Hnc].
   assert (Hnf' := no_feat_head_cfg g (r_keys r) rit Hnf).
   unfold shape, tail_ok. rewrite nfeat_app by exact Hnf'.
@@ -304,7 +304,7 @@ Lemma read_S : forall n reg st f,
                                  | Some v => v | None => 0 end))
               (r_keys r) in
         let ritems :=
-          if r_rf r =? 2
+          if rf_hashed r
           then [ItReq (map (direct AF reg st1) (r_extra r))] else [] in
         let items := fitems ++ citems ++ ritems in
         let hit :=
@@ -390,11 +390,11 @@ Proof.
   set (items := map ItFeat fvals ++
          map (fun k => ItCfg k match cfg (s_base st1) k with
                                | Some v => v | None => 0 end) (r_keys r) ++
-         (if r_rf r =? 2 then [ItReq (map (direct AF reg st1) (r_extra r))]
+         (if rf_hashed r then [ItReq (map (direct AF reg st1) (r_extra r))]
           else [])).
   assert (Hshape : shape r items).
   { apply shape_built; [exact EF|].
-    destruct (r_rf r =? 2); [eexists; reflexivity|reflexivity]. }
+    destruct (rf_hashed r); [eexists; reflexivity|reflexivity]. }
   destruct (match assoc f (s_cache st1) with
             | Some (h, v) => if items_eqb h items then Some v else None
             | None => None end) as [v|]; [exact HI1|].
@@ -478,7 +478,7 @@ Proof.
 Qed.
 
 Lemma shape_collidable : forall r0 r h,
-  shape r0 h -> shape r h -> (r_rf r =? 2) = false ->
+  shape r0 h -> shape r h -> rf_hashed r = false ->
   memZ (r_name r) (r_outs r0) = true -> collidable r0 r = true.
 Proof.
   intros r0 r h [Hn0 [Hk0 Ht0]] [Hn [Hk Ht]] Hrf Hm.
@@ -490,7 +490,7 @@ Proof.
   { induction l; simpl; auto. now rewrite Z.eqb_refl. }
   rewrite Hl. simpl.
   unfold tail_ok in Ht0, Ht. rewrite Hrf in Ht.
-  destruct (r_rf r0 =? 2); simpl; auto.
+  destruct (rf_hashed r0); simpl; auto.
   destruct Ht0 as [l Hl0]. rewrite Ht in Hl0. discriminate Hl0.
 Qed.
 
@@ -547,7 +547,7 @@ Theorem read_coherent_flat : forall reg st f,
   (forall r, select AF reg st f = Some r ->
      forallb (in_base (s_base st)) (r_feats r) = true
      /\ uses_covered r = true /\ plain_method r = true
-     /\ (r_rf r =? 2) = false /\ r_extra r = []) ->
+     /\ rf_hashed r = false /\ r_extra r = []) ->
   snd (read RF reg st f) = snd (read RF reg (clear st) f).
 Proof.
   intros reg st f Hco HI Hsel Hg.
@@ -635,7 +635,7 @@ Theorem history_read_coherent : forall reg b ops f,
   (forall r, select AF reg st f = Some r ->
      forallb (in_base (s_base st)) (r_feats r) = true
      /\ uses_covered r = true /\ plain_method r = true
-     /\ (r_rf r =? 2) = false /\ r_extra r = []) ->
+     /\ rf_hashed r = false /\ r_extra r = []) ->
   snd (read RF reg st f) = snd (read RF reg (clear st) f).
 Proof.
   intros reg b ops f Hco st Hsel Hg.
